@@ -234,6 +234,19 @@ def jnp_log(I, x):
     raise Unsupported("jnp.log")
 
 
+def _jnp_minmax(which):
+    def f(I, a, b):
+        _used("A4: jnp.maximum / jnp.minimum on scalars are max / min")
+        num = (bool, int, float, SBool, SInt, SReal)
+        if isinstance(a, num) and isinstance(b, num) and not getattr(a, "vec", False) and not getattr(b, "vec", False):
+            ca = zreal(a) >= zreal(b) if which == "max" else zreal(a) <= zreal(b)
+            if all(isinstance(x, (bool, int, SBool, SInt)) for x in (a, b)):
+                return SInt(z3.If(ca, zint(a), zint(b)), False)
+            return SReal(z3.If(ca, zreal(a), zreal(b)))
+        raise Unsupported(f"jnp.{which}imum of non-scalars")
+    return f
+
+
 def jnp_expand_dims(I, v, axis=0):
     _used("A4: expand_dims(v, 0) is the length-1 stack [v]")
     if axis != 0:
@@ -734,6 +747,8 @@ def install(I):
     e["jax.numpy.shape"] = jnp_shape
     e["jax.scipy.special.logsumexp"] = logsumexp
     e["jax.numpy.log"] = jnp_log
+    e["jax.numpy.maximum"] = _jnp_minmax("max")
+    e["jax.numpy.minimum"] = _jnp_minmax("min")
     e["jax.numpy.expand_dims"] = jnp_expand_dims
     e["jax.numpy.arange"] = jnp_arange
     e["jax.numpy.choose"] = jnp_choose
